@@ -224,8 +224,10 @@ def run_check(prop, tier, rule_fn, level_note, floors=None, controls_fn=None, th
     an = Analysis(prog, max_rounds=40)
     ctx = Ctx(prop, tier, prog, an)
     broken = []
+    xinfo = None
     try:
         rule_fn(ctx)
+        xinfo = cross_check(ctx, rule_fn)
     except BrokenCheck as e:
         broken.append(str(e))
     controls = None
@@ -310,6 +312,8 @@ def run_check(prop, tier, rule_fn, level_note, floors=None, controls_fn=None, th
     }
     if controls is not None:
         cov["controls"] = controls
+    if xinfo is not None:
+        cov["second_view"] = xinfo
     cov.update(extra)
     ev = {
         "property_id": prop, "tier": tier, "seed": seed, "level": "other",
@@ -359,6 +363,69 @@ def run_controls(specs):
 ALL_PROPS = ["C%02d" % i for i in range(1, 19)]
 
 
+_VIEW2 = {}
+
+
+def second_view(prog):
+    """(program, analysis) with the helpers no rule knows by name inlined (rss/inline.py); built on demand, once per program"""
+    key = id(prog)
+    if key not in _VIEW2:
+        from . import inline
+        known = inline.known_names(os.path.join(VERIF, "rss", "rules"), [os.path.join(VERIF, "rss", "rulelib.py")])
+        p2 = inline.build_view(prog, known)
+        _VIEW2.clear()
+        _VIEW2[key] = (p2, Analysis(p2, max_rounds=40))
+    return _VIEW2[key]
+
+
+def cross_check(ctx, rule_fn):
+    """Reports are confirmed on a second, behaviour-preserving view of the program in which unknown helpers are
+    transparent.  If the rules find nothing to report there, the reports of the first view are artefacts of where the
+    code was split into functions and are withdrawn (status ok, with a note).  Otherwise the reports confirmed by
+    both views are kept (all of the second view's if the ids do not intersect)."""
+    bad1 = [o for o in ctx.obligations if o.status in ("violated", "anchor-missing") or o.status is None]
+    if not bad1:
+        return None
+    try:
+        p2, an2 = second_view(ctx.prog)
+    except Exception as e:      # the second view is an aid; without it the reports stand
+        ctx.notes.append("second view not available: %r" % e)
+        return None
+    if not getattr(p2, "inlined", None):
+        return None
+    ctx2 = Ctx(ctx.prop, ctx.tier, p2, an2, label=getattr(ctx, "label", None))
+    from . import rulelib
+    try:
+        rule_fn(ctx2)
+    except Exception as e:
+        import traceback
+        ctx.notes.append("rules crashed on the second view: %s" % traceback.format_exc()[-500:])
+        rulelib.set_current_program(ctx.prog)
+        return None
+    rulelib.set_current_program(ctx.prog)
+    bad2 = {o.id: o for o in ctx2.obligations if o.status in ("violated", "anchor-missing") or o.status is None}
+    info = {"inlined_helpers": p2.inlined[:40], "reports_first_view": [o.id for o in bad1], "reports_second_view": sorted(bad2)}
+    if not bad2:
+        for o in bad1:
+            o.detail = "withdrawn: holds once the helpers are inlined (%s); first view said: %s" % (
+                ", ".join(k.split("::")[-1] for k in p2.inlined[:6]), (o.detail or "")[:200])
+            o.status = "ok"
+        return info
+    both = [o for o in bad1 if o.id in bad2]
+    if both:
+        for o in bad1:
+            if o.id not in bad2:
+                o.detail = "withdrawn: not confirmed with helpers inlined; first view said: %s" % (o.detail or "")[:200]
+                o.status = "ok"
+    else:
+        for o in bad1:
+            o.detail = "withdrawn: not confirmed with helpers inlined; first view said: %s" % (o.detail or "")[:200]
+            o.status = "ok"
+        for o in bad2.values():
+            ctx.obligations.append(o)
+    return info
+
+
 def evaluate_tree(root, props=None):
     """run the rules of the given properties on the tree at `root` (no evidence written);
     returns {prop: {"violated": [...], "undecided": [...], "n": int}}"""
@@ -377,6 +444,7 @@ def evaluate_tree(root, props=None):
         err = None
         try:
             mod.rules(ctx)
+            cross_check(ctx, mod.rules)
         except Exception as e:  # a crashing rule on a mutated tree is reported, not hidden
             import traceback
             err = traceback.format_exc()[-600:]
@@ -402,6 +470,7 @@ def _rules_on(root, prop, mode="lib"):
     err = None
     try:
         mod.rules(ctx)
+        cross_check(ctx, mod.rules)
     except Exception:
         import traceback
         err = traceback.format_exc()[-400:]
